@@ -68,6 +68,8 @@ Inductive c06case :=
 | CParse (k : option bytes) (i v c : N) (go_tk : res bytes) (go_ids : res (N * N * N)) (go_ver : res N) (go_upd : res bytes)
 (* datatype constructors: index into the class table, caller data, result, decode of the result *)
 | CTKey (dt idx : nat) (d : bytes) (go : res bytes) (go_dec : res bytes)
+(* storage.SplitKey(k) and, when it succeeded, storage.MergeKey of its two results *)
+| CSplit (k : bytes) (go : res (bytes * bytes)) (go_merge : res bytes)
 (* bulk grid: digests of ConstructKey / TombstoneKey / MinVersionKey / MaxVersionKey over grid^2 and of
    UpdateDataKey over grid^3 *)
 | CDigest (grid : list N) (tk : bytes) (d_key d_tomb d_min d_max d_upd : N)
@@ -85,12 +87,23 @@ Inductive c06case :=
 
 (* ---- model side ---- *)
 
-Definition class_table (dt : nat) : list kclass :=
+(* the generated tables in table order (Gen/KeyClasses.v, n_keyclass_tables); the caller data of a
+   tarsupervoxels case is the 8 bytes of the supervoxel id followed by the extension *)
+Definition class_table (dt : nat) (d : bytes) : list kclass * bytes :=
   match dt with
-  | 0%nat => keyclasses_keyvalue
-  | 1%nat => keyclasses_neuronjson
-  | 2%nat => keyclasses_annotation
-  | _ => keyclasses_labelmap
+  | 0%nat => (keyclasses_keyvalue, d)
+  | 1%nat => (keyclasses_neuronjson, d)
+  | 2%nat => (keyclasses_annotation, d)
+  | 3%nat => (keyclasses_labelmap, d)
+  | 4%nat => (keyclasses_imageblk, d)
+  | 5%nat => (keyclasses_imagetile, d)
+  | 6%nat => (keyclasses_labelarray, d)
+  | 7%nat => (keyclasses_labelblk, d)
+  | 8%nat => (keyclasses_labelsz, d)
+  | 9%nat => (keyclasses_labelvol, d)
+  | 10%nat => (keyclasses_roi, d)
+  | 11%nat => (keyclasses_tarsupervoxels (skipn 8 d), firstn 8 d)
+  | _ => ([], d)
   end.
 
 (* keyvalue.NewTKey with repo_patches/C06-4-fix: a key string containing byte 0 is refused *)
@@ -286,7 +299,8 @@ Definition model_ok (c : c06case) : bool :=
     | None => true
     end
   | CTKey dt idx d go go_dec =>
-    match nth_error (class_table dt) idx with
+    let '(tbl, d) := class_table dt d in
+    match nth_error tbl idx with
     | Some kc =>
       res_eqb bytes_eqb go (tkey_checked dt kc d) &&
       match go, kc_shape kc with
@@ -294,6 +308,12 @@ Definition model_ok (c : c06case) : bool :=
       | _, _ => true
       end
     | None => false
+    end
+  | CSplit k go go_merge =>
+    res_eqb pair_eqb go (split_key k) &&
+    match go with
+    | Ok (u, v) => res_eqb bytes_eqb go_merge (Ok (merge_key u v))
+    | _ => true
     end
   | CDigest g tk d_key d_tomb d_min d_max d_upd =>
     (cube2 g (fun i v => construct_data_key i v 0 tk) 0 =? d_key) &&
@@ -478,7 +498,46 @@ Definition spec_class (c : c06case) : nat :=
     else 0%nat
   | CRange i cls go_kr go_dikr go_tcr => 0%nat
   | CParse _ _ _ _ _ _ _ _ => 0%nat
-  | CTKey dt idx d go go_dec => 0%nat
+  | CTKey dt idx d go go_dec =>
+    (* every constructed TKey starts with the class byte of its table entry; one class is prefix free on
+       admissible caller data (checked pairwise by c06_tkeys_prefix_free below) *)
+    let '(tbl, d) := class_table dt d in
+    match nth_error tbl idx, go with
+    | Some kc, Ok tk =>
+      if body_okb kc d then
+        match tk with
+        | x :: _ =>
+          if negb (x =? kc_class kc) then 10%nat
+          else
+            (* a NewTKey-made key of instance 7 lies inside TKeyClassRange(its class) of instance 7 and outside
+               that of the neighbouring classes (ranges as the CRange cases tie them to the code) *)
+            let k := data_key 7 tk 1 0 n_MarkData in
+            let inr c := let r := tkey_class_range 7 c in lex_leb (fst r) k && lex_leb k (snd r) in
+            match kc_shape kc with
+            | KLegacy _ => 0%nat
+            | _ => if inr (kc_class kc) && negb (inr (kc_class kc + 1)) && negb (inr (kc_class kc - 1)) then 0%nat else 3%nat
+            end
+        | [] => 10%nat
+        end
+      else 0%nat
+    | _, Panic => 1%nat
+    | _, _ => 0%nat
+    end
+  | CSplit k go go_merge =>
+    (* the two parts of a key put together again are the key; a data key long enough for its suffix does not panic
+       and its second part is version + client + marker *)
+    match go with
+    | Ok (u, v) =>
+      if negb (bytes_eqb (u ++ v) k && res_eqb bytes_eqb go_merge (Ok k)) then 2%nat
+      else match k with
+           | p :: _ => if (p =? n_dataKeyPrefix) && negb (Nat.eqb (length v) suffix_size) then 2%nat else 0%nat
+           | [] => 2%nat
+           end
+    | Panic => match k with p :: _ => if (p =? n_dataKeyPrefix) && Nat.leb suffix_size (length k) then 1%nat
+                                       else if negb (p =? n_dataKeyPrefix) then 1%nat else 0%nat
+                          | [] => 0%nat end
+    | Err => match k with p :: _ => if (p =? n_dataKeyPrefix) || (p =? n_metadataKeyPrefix) then 2%nat else 0%nat | [] => 2%nat end
+    end
   | CDigest _ _ _ _ _ _ _ => 0%nat
   | COrder entries go_keys =>
     (* the store returns the keys of the entries in tuple order (entries are prefix free per instance) *)
